@@ -41,7 +41,8 @@ fn spell(kind: &str, t: &str) -> String {
 pub enum Src { Scalar, WrongKind, VecExact, VecShort, VecLong, ScalarLit, VecLit }
 
 #[derive(Clone, Debug)]
-pub struct Stmt { pub a: Ix, pub b: Option<Ix>, pub src: Src, pub op: &'static str, pub text: String, pub n_addr: usize }
+pub struct Stmt { pub a: Ix, pub b: Option<Ix>, pub src: Src, pub op: &'static str, pub text: String, pub n_addr: usize, /// kind of the index values when the target is given through typed index variables
+  pub ik: Option<&'static str> }
 
 pub const OPS: [&str; 5] = ["=", "+=", "-=", "*=", "/="];
 
@@ -90,21 +91,43 @@ pub fn alphabet(r: usize, c: usize, kind: &str, tier: Tier) -> Vec<Stmt> {
     let n_addr = match &b { None => count_sel(&a, r * c).unwrap_or(0), Some(bb) => count_sel(&a, r).unwrap_or(0) * count_sel(bb, c).unwrap_or(0) };
     for op in ops_for(kind) {
       let sname = if op == "=" { "s77" } else { "s2" };
-      out.push(Stmt { a: a.clone(), b: b.clone(), src: Src::Scalar, op, text: format!("x[{}] {} {}", idx, op, sname), n_addr });
-      if let Some(lit) = scalar_literal(kind, op) { out.push(Stmt { a: a.clone(), b: b.clone(), src: Src::ScalarLit, op, text: format!("x[{}] {} {}", idx, op, lit), n_addr }); }
-      if op == "=" || op == "+=" { out.push(Stmt { a: a.clone(), b: b.clone(), src: Src::WrongKind, op, text: format!("x[{}] {} wk", idx, op), n_addr }); }
+      out.push(Stmt { a: a.clone(), b: b.clone(), src: Src::Scalar, op, text: format!("x[{}] {} {}", idx, op, sname), n_addr, ik: None });
+      if let Some(lit) = scalar_literal(kind, op) { out.push(Stmt { a: a.clone(), b: b.clone(), src: Src::ScalarLit, op, text: format!("x[{}] {} {}", idx, op, lit), n_addr, ik: None }); }
+      if op == "=" || op == "+=" { out.push(Stmt { a: a.clone(), b: b.clone(), src: Src::WrongKind, op, text: format!("x[{}] {} wk", idx, op), n_addr, ik: None }); }
       // vector sources: only through a vector of linear indices, a range or a mask (one-dimensional)
       if b.is_none() && matches!(a, Ix::V(_) | Ix::R(..) | Ix::M(_)) && n_addr >= 1 && n_addr <= 6 {
-        out.push(Stmt { a: a.clone(), b: None, src: Src::VecExact, op, text: format!("x[{}] {} v{}", idx, op, n_addr), n_addr });
-        if let Some(lit) = vector_literal(kind, n_addr) { out.push(Stmt { a: a.clone(), b: None, src: Src::VecLit, op, text: format!("x[{}] {} {}", idx, op, lit), n_addr }); }
+        out.push(Stmt { a: a.clone(), b: None, src: Src::VecExact, op, text: format!("x[{}] {} v{}", idx, op, n_addr), n_addr, ik: None });
+        if let Some(lit) = vector_literal(kind, n_addr) { out.push(Stmt { a: a.clone(), b: None, src: Src::VecLit, op, text: format!("x[{}] {} {}", idx, op, lit), n_addr, ik: None }); }
         if op == "=" || op == "+=" {
-          if n_addr >= 2 { out.push(Stmt { a: a.clone(), b: None, src: Src::VecShort, op, text: format!("x[{}] {} v{}", idx, op, n_addr - 1), n_addr }); }
-          out.push(Stmt { a: a.clone(), b: None, src: Src::VecLong, op, text: format!("x[{}] {} v{}", idx, op, n_addr + 1), n_addr });
+          if n_addr >= 2 { out.push(Stmt { a: a.clone(), b: None, src: Src::VecShort, op, text: format!("x[{}] {} v{}", idx, op, n_addr - 1), n_addr, ik: None }); }
+          out.push(Stmt { a: a.clone(), b: None, src: Src::VecLong, op, text: format!("x[{}] {} v{}", idx, op, n_addr + 1), n_addr, ik: None });
         }
       }
     }
   }
+  // the same target given through index variables of every numeric kind (scalar and vector index values)
+  for ik in super::c03::INDEX_KINDS {
+    let n = (r * c) as i64; let (rr, cc) = (r as i64, c as i64);
+    let mut tg: Vec<(Ix, Option<Ix>)> = vec![(Ix::S(1), None), (Ix::S(n), None), (Ix::S(n + 1), None), (Ix::S(0), None), (Ix::V(vec![1, 2]), None), (Ix::V(vec![n, 1]), None), (Ix::V(vec![1, n + 1]), None),
+      (Ix::S(1), Some(Ix::S(cc))), (Ix::S(rr), Some(Ix::S(1))), (Ix::S(rr + 1), Some(Ix::S(1))), (Ix::S(1), Some(Ix::S(cc + 1))), (Ix::S(0), Some(Ix::S(1))),
+      (Ix::V(vec![1, rr]), Some(Ix::S(1))), (Ix::S(1), Some(Ix::V(vec![1, cc]))), (Ix::V(vec![rr, 1]), Some(Ix::All)), (Ix::All, Some(Ix::V(vec![cc, 1]))), (Ix::V(vec![1, rr + 1]), Some(Ix::All))];
+    tg.dedup();
+    for (a, b) in tg {
+      let name = |ix: &Ix| match ix { Ix::S(k) => typed_index_name(ik, &[*k]), Ix::V(v) => typed_index_name(ik, v), other => other.text() };
+      let idx = match &b { None => name(&a), Some(b) => format!("{},{}", name(&a), name(b)) };
+      let n_addr = match &b { None => count_sel(&a, r * c).unwrap_or(0), Some(bb) => count_sel(&a, r).unwrap_or(0) * count_sel(bb, c).unwrap_or(0) };
+      for op in ops_for(kind).into_iter().filter(|o| *o == "=" || *o == "+=") {
+        let sname = if op == "=" { "s77" } else { "s2" };
+        out.push(Stmt { a: a.clone(), b: b.clone(), src: Src::Scalar, op, text: format!("x[{}] {} {}", idx, op, sname), n_addr, ik: Some(ik) });
+      }
+    }
+  }
   out
+}
+
+/// name of the helper variable that holds the index value(s) `v` with kind `ik` (letters only: digits and underscores do not mix in identifiers)
+pub fn typed_index_name(ik: &str, v: &[i64]) -> String {
+  format!("k{}{}", ik.replace("128", "x").replace("16", "s").replace("32", "t").replace("64", "l").replace('8', "b"), v.iter().map(|x| ((b'a' + *x as u8) as char).to_string()).collect::<String>())
 }
 
 /// source element values of the helper vectors v1..v7: 91, 92, ...
@@ -131,8 +154,19 @@ pub fn vector_literal(kind: &str, n: usize) -> Option<String> {
   match kind { "f64" | "string" | "bool" => Some(format!("[{}]", vals.join(" "))), k if k.starts_with('u') => Some(format!("[{}]", vals.join(" "))), _ => None }
 }
 
-pub fn helper_defs(kind: &str) -> Vec<String> {
+pub fn helper_defs(kind: &str) -> Vec<String> { helper_defs_for(kind, 0, 0) }
+
+pub fn helper_defs_for(kind: &str, r: usize, c: usize) -> Vec<String> {
   let mut v = vec![];
+  if r > 0 {
+    let n = (r * c) as i64; let (rr, cc) = (r as i64, c as i64);
+    for ik in super::c03::INDEX_KINDS {
+      let mut sc: Vec<i64> = vec![0, 1, n, n + 1, rr, rr + 1, cc, cc + 1]; sc.sort(); sc.dedup();
+      for k in sc { v.push(format!("{}<{}> := {}", typed_index_name(ik, &[k]), ik, k)); }
+      let mut vs: Vec<Vec<i64>> = vec![vec![1, 2], vec![n, 1], vec![1, n + 1], vec![1, rr], vec![1, cc], vec![rr, 1], vec![cc, 1], vec![1, rr + 1]]; vs.sort(); vs.dedup();
+      for w in vs { v.push(format!("{}<[{}]> := [{}]", typed_index_name(ik, &w), ik, w.iter().map(|x| x.to_string()).collect::<Vec<_>>().join(" "))); }
+    }
+  }
   match kind {
     "f64" => { v.push("s77 := 77".to_string()); v.push("s2 := 2".to_string()); v.push("wk := \"s\"".to_string()); }
     "string" => { v.push("s77 := \"z77\"".to_string()); v.push("s2 := \"z2\"".to_string()); v.push("wk := 5".to_string()); }
@@ -215,9 +249,9 @@ fn helpers_snapshot(s: &Session) -> Vec<(String, bool, Canon)> { s.snapshot().in
 impl C04 {
   pub fn new(tier: Tier) -> C04 { C04 { tier, level: None, alphas: std::collections::HashMap::new() } }
 
-  fn build(p: &Payload) -> Option<Session> {
+  fn build(p: &Payload, typed: bool) -> Option<Session> {
     let mut s = Session::new();
-    for d in helper_defs(&p.kind) { if !s.run(&d).is_value() { return None; } }
+    for d in (if typed { helper_defs_for(&p.kind, p.r, p.c) } else { helper_defs(&p.kind) }) { if !s.run(&d).is_value() { return None; } }
     let def = format!("~{}", define_matrix("x", &p.kind, &init_values(&p.kind, p.r, p.c), p.r, p.c));
     if !s.run(&def).is_value() { return None; }
     for h in &p.history { s.run(h); }
@@ -243,8 +277,9 @@ fn support_key(r: usize, c: usize, st: &Stmt) -> String {
 fn transition(s: &mut Session, p: &Payload, st: &Stmt, pre: &Mat, out: &mut WorkerOut) -> Option<Mat> {
   let forms = match &st.b { None => st.a.form().to_string(), Some(b) => format!("{},{}", st.a.form(), b.form()) };
   let srcname = match st.src { Src::Scalar => "scalar", Src::ScalarLit => "scalar-literal", Src::WrongKind => "wrong-kind", Src::VecExact => "vector", Src::VecLit => "vector-literal", Src::VecShort => "vector-short", Src::VecLong => "vector-long" };
-  let locus = format!("{}:{}:{}@{}", st.op, forms, srcname, super::c03::storage_class((p.r, p.c)));
-  let case = format!("x = {}; {}", pre.short(), st.text);
+  let locus = match st.ik { None => format!("{}:{}:{}@{}", st.op, forms, srcname, super::c03::storage_class((p.r, p.c))), Some(ik) => format!("{}:{}:{}:index-kind-{}@{}", st.op, forms, srcname, ik, super::c03::storage_class((p.r, p.c))) };
+  if let (Some(ik), true) = (st.ik, true) { out.set("typed_index_targets", &format!("{}|{}", ik, forms)); }
+  let case = match st.ik { None => format!("x = {}; {}", pre.short(), st.text), Some(ik) => format!("x = {}; {} (index variables of kind {} holding {})", pre.short(), st.text, ik, match &st.b { None => st.a.text(), Some(b) => format!("{},{}", st.a.text(), b.text()) }) };
   let o = s.run(&st.text);
   let post = s.get("x").and_then(|c| Mat::from_canon(&c));
   let post = match post { Some(m) => m, None => { out.fail(format!("C04|frame-broken|{}", locus), case, format!("x is no longer a matrix: {:?}", s.get("x").map(|c| c.short()))); return None; } };
@@ -320,7 +355,7 @@ impl UnitRunner for C04 {
         loop {
           attempt += 1;
           if sess.is_none() {
-            match C04::build(p) {
+            match C04::build(p, alpha[lo..hi].iter().any(|st| st.ik.is_some())) {
               Some(s) => { let h = helpers_snapshot(&s); sess = Some((s, true, h)); }
               None => { out.fail("C04|setup-failed|helpers".into(), format!("{:?}", p.history), "could not define helpers / x".into()); break; }
             }
@@ -439,7 +474,7 @@ impl Check for C04 {
         let mut it = l.splitn(3, ':');
         let op = it.next().unwrap_or("");
         let forms = it.next().unwrap_or("");
-        let src = it.next().unwrap_or("");
+        let src = it.next().unwrap_or("").split(':').next().unwrap_or("");
         let src = if src == "vector-literal" { "vector-literal" } else if src.starts_with("vector") { "vector" } else { src };
         supported.contains(&format!("{}|{}|{}|{}", sc, forms, op, src))
       } else { true }
